@@ -403,9 +403,10 @@ namespace GeographicLib {
       drho = ((den != 0 && isfinite(den))
               ? (x*nx + y * (ny - 2*_nrho0)) / den
               : den);
-    drho = fmin(drho, _drhomax);
+    // Use min/max (not fmin/fmax) to preserve NaNs
+    drho = min(drho, _drhomax);
     if (_n == 0)
-      drho = fmax(drho, -_drhomax);
+      drho = max(drho, -_drhomax);
     real
       tnm1 = _t0nm1 + _n * drho/_scale,
       dpsi = (den == 0 ? 0 :
